@@ -35,7 +35,7 @@ CHECKS = {
    note="Trusted: ASan redzones; the baseline rule (inputs whose full-capacity decode does not reproduce the input are skipped as C02/C06 matters). Inputs carry 64 bytes of slack because over-reads of valid data are not this property's subject."),
  "C15": dict(engine="E-RESIDUE residue", category="exploration",
    technique="deterministic simulation: same call under simulator-prepared stack/heap/buffer residue, call histories and a fresh process; differential oracle",
-   text="Every sampled encoder/decoder call of the anchored files (adaptive auto and forced, FOR scalar/batch with meta NULL/zeroed/pre-analysed, PFOR, float, dictionary, bitmap encode/decode, RLE, BP128) is executed on a simulator-owned stack in nine contexts that differ only in hidden state: zeroed memory; seeded garbage with a history of other API calls on the same stack; stack, heap and buffers filled with the call's own count as 64-/32-bit words, with ones, with a small width; the same API called just before with other data of equal length (and with the same data); and a freshly spawned process with ASLR on. Return value, produced bytes and decoded values must be identical in all contexts; a crash or damaged canary in one context only is a disagreement. The library is built by the pinned compiler (gcc) at -O2 and -O0, unsanitised, because stack layout decides which residue a local sees. Seeded exploration over (call, arguments, context).",
+   text="Every sampled encoder/decoder call of the anchored files (adaptive auto and forced, FOR scalar/batch with meta NULL/zeroed/pre-analysed, PFOR, float, dictionary, bitmap encode/decode, RLE, BP128) and of the remaining encoders (group, delta signed/unsigned, Elias gamma/delta, the tagged/external/chained scalar writers) is executed on a simulator-owned stack in ten contexts that differ only in hidden state: zeroed memory; seeded garbage with a history of other API calls on the same stack; stack, heap and buffers filled with the call's own count as 64-/32-bit words, with ones, with a small width; the same API called just before with other data of equal length (and with the same data); input and output buffers moved to other addresses and alignment classes (multiples of 8 bytes) inside their blocks; and a freshly spawned process with ASLR on. Return value, produced bytes and decoded values must be identical in all contexts; a crash or damaged canary in one context only is a disagreement. The library is built by the pinned compiler (gcc) at -O2 and -O0, unsanitised, because stack layout decides which residue a local sees. Seeded exploration over (call, arguments, context).",
    design_ref="DESIGN.md 2.8, 3/C15",
    note="Trusted: the stack switch and fill code (sim/seams/stackctx.cc), the allocator shim. Not compared: bytes beyond the returned length, struct padding, metadata out-fields. Caller-owned in/out metadata is only passed in documented states."),
  "C09": dict(engine="E-HIST hist.packed + hist.hugepacked + E-TRACE footprint", category="exploration",
